@@ -58,6 +58,11 @@ def op(name, *args):
     return ("op", name, tuple(args))
 
 
+def mk(name, *args):
+    """normalised operator term"""
+    return simplify(("op", name, tuple(args)))
+
+
 def is_const(t, v=None):
     return t[0] == "const" and (v is None or (t[1] == v and type(t[1]) == type(v)) or (isinstance(v, (int, float)) and not isinstance(v, bool) and not isinstance(t[1], bool) and t[1] == v))
 
@@ -192,8 +197,6 @@ def elem_of(stream):
     if k == "zip":
         return ("tuple", (elem_of(stream[1]), elem_of(stream[2])))
     if k == "filter":
-        return elem_of(stream[1])
-    if k == "rev":
         return elem_of(stream[1])
     return ("elem", stream)
 
